@@ -31,6 +31,8 @@ def generate(seed, tier="quick"):
     with_dup = rng.random() < 0.5
     if with_dup:
         world["minerals"].append(copy.deepcopy(world["minerals"][0]))
+        if rng.random() < 0.5 and world["minerals"][0].get("ctor") != "default":
+            world["minerals"][-1]["share_init_with"] = 0  # same initial array objects
     n_all = len(world["minerals"])
     per = []
     for m in range(n_all):
